@@ -1,5 +1,5 @@
 //! A small JSON value with a writer and a parser. The harness has no
-//! dependency besides ckc-rs itself; 64-bit quantities that do not fit a JSON
+//! dependency besides ckc-rs itself (and the `log` facade it uses); 64-bit quantities that do not fit a JSON
 //! double exactly (bit-sets, digests) are written as "0x…" strings.
 
 use std::fmt::Write as _;
